@@ -1,6 +1,9 @@
 package combat
 
 import (
+	"maps"
+	"slices"
+
 	"github.com/simimpact/srsim/pkg/engine/event"
 	"github.com/simimpact/srsim/pkg/engine/info"
 	"github.com/simimpact/srsim/pkg/engine/prop"
@@ -36,7 +39,8 @@ func (mgr *Manager) Heal(heal info.Heal) {
 		// Get base heal amount
 		hpLost := target.MaxHP() - target.HP()
 		base := heal.HealValue
-		for k, v := range baseHeal {
+		for _, k := range slices.Sorted(maps.Keys(baseHeal)) { // fixed summation order
+			v := baseHeal[k]
 			switch k {
 			case model.HealFormula_BY_HEALER_ATK:
 				base += v * source.ATK()
